@@ -172,7 +172,7 @@ func runC07(c *Ctx) {
 			}
 			upper, lower := false, false
 			for _, l := range guardsOf(r.Block()) {
-				op, x, y, ok := l.cmp()
+				op, x, y, ok := l.cmpWith(tainted)
 				if !ok || stripConv(x) != tainted {
 					continue
 				}
